@@ -10,11 +10,15 @@
 //! equals that of the same operation performed by a fresh process (labels/instance ids/times canonicalised);
 //! (c) result classes of the non-reading operations equal the fresh process's.
 //!
-//! Mutants caught (tools/mutant_run.sh G <diff> C38 quick):
-//!   C38-context-from-thread-local.diff   Context::new() starts from the legacy thread-local settings -> VIOLATION
+//! Every read is done with the kit's explicit settings AND with a plain `Context::new()`.
+//!
+//! Mutants caught (mutant_run, quick tier):
+//!   C38-context-from-thread-local.diff   Context::new() starts from the legacy thread-local settings
+//!       -> VIOLATION  keys `read-report-differs-from-fresh-process op=read-good|read-tampered after=legacy-from_toml`,
+//!          `produced-asset-read-differs-from-fresh-process … after=legacy-from_toml`
 
 use c2pa::{settings::Settings, Builder, ProgressPhase, Reader};
-use kit::{assets, canon, ev::hex, ev::unhex, gutil, par, sdk, Run};
+use kit::{assets, ev::hex, ev::unhex, gutil, par, sdk, Run};
 use serde_json::{json, Value};
 use std::{
     collections::BTreeMap,
@@ -57,12 +61,20 @@ fn read_canon(mime: &str, bytes: &[u8]) -> String {
     read_both(mime, bytes).0
 }
 
+fn read_default(mime: &str, bytes: &[u8]) -> String {
+    match par::guard(|| Reader::from_context(c2pa::Context::new()).with_stream(mime, Cursor::new(bytes))) {
+        Err(p) => format!("PANIC {p}"),
+        Ok(Err(e)) => gutil::err_class(&e),
+        Ok(Ok(r)) => format!("Ok:{}", gutil::canon2(&r, false)),
+    }
+}
+
 /// (canonical report, the same with digests masked)
 fn read_both(mime: &str, bytes: &[u8]) -> (String, String) {
     match par::guard(|| sdk::read(sdk::ctx(), mime, bytes)) {
         Err(p) => (format!("PANIC {p}"), format!("PANIC {p}")),
         Ok(Err(e)) => (gutil::err_class(&e), gutil::err_class(&e)),
-        Ok(Ok(r)) => (format!("Ok:{}", canon::canon_string(&r)), format!("Ok:{}", gutil::canon_masked(&r))),
+        Ok(Ok(r)) => (format!("Ok:{} | default-context: {}", gutil::canon2(&r, false), read_default(mime, bytes)), format!("Ok:{}", gutil::canon2(&r, true))),
     }
 }
 
@@ -87,8 +99,9 @@ fn perform(op: usize, fx: &Fixed) -> Done {
     match op {
         0 => sign_with(&mut sdk::builder(sdk::ctx(), DEF), &png),
         1 => sign_with(&mut sdk::builder(sdk::ctx(), DEF), &jpeg),
-        2 => Done { obs: read_canon("image/jpeg", &fx.good), produced: None },
-        3 => Done { obs: read_canon("image/jpeg", &fx.tampered), produced: None },
+        // each read twice: with the kit's explicit settings and with a plain `Context::new()` (default settings)
+        2 => Done { obs: format!("{} | default-context: {}", read_canon("image/jpeg", &fx.good), read_default("image/jpeg", &fx.good)), produced: None },
+        3 => Done { obs: format!("{} | default-context: {}", read_canon("image/jpeg", &fx.tampered), read_default("image/jpeg", &fx.tampered)), produced: None },
         4 => {
             let mut b = sdk::builder(sdk::ctx(), DEF);
             match par::guard(|| b.add_ingredient_from_stream(ING, "image/jpeg", &mut Cursor::new(&fx.good)).map(|_| ())) {
@@ -99,8 +112,8 @@ fn perform(op: usize, fx: &Fixed) -> Done {
             sign_with(&mut b, &png)
         }
         5 => {
-            let b = sdk::builder(sdk::ctx(), DEF);
             let r = par::guard(|| {
+                let b = Builder::from_context(sdk::ctx()).with_definition(DEF)?;
                 let mut arc = Cursor::new(Vec::new());
                 b.to_archive(&mut arc)?;
                 arc.set_position(0);
@@ -326,7 +339,7 @@ pub fn run(run: &Run, replay: Option<&Value>) {
     );
     run.assume("a fresh worker process (same binary, nothing executed before) is the reference for 'the same bytes and settings'; its own determinism is checked by asking two workers");
     run.assume("reports are compared after canonicalisation (labels, instance ids, validation time)");
-    run.assume("settings are always passed through an explicit Context (kit base settings); the legacy operation only touches thread-local settings, which no other operation is supposed to read");
+    run.assume("every read is done twice: with an explicit Context carrying the kit base settings and with a plain Context::new(); the legacy operation only touches thread-local settings, which no Context-based operation is supposed to read");
     let fx = Arc::new(make_fixed());
     let fixed_json = |mut j: Value| -> Value {
         j["good"] = json!(hex(&fx.good));
@@ -402,14 +415,14 @@ pub fn run(run: &Run, replay: Option<&Value>) {
         return;
     }
 
-    let max_len = run.tier.pick(3usize, 4usize);
+    let max_len = run.tier.pick(2usize, 4usize);
     let seqs = all_sequences(max_len);
     run.space(&format!("all operation sequences of length 1..={max_len} over {} operations {:?}", OPS.len(), OPS), seqs.len() as u64, true);
     // own the nondeterminism: the first two-step sequence twice
     {
         let a = run_sequence(&[0, 2], &fx);
         let b = run_sequence(&[0, 2], &fx);
-        if a.obs != b.obs || a.produced[0].3 != b.produced[0].3 {
+        if a.obs != b.obs || a.produced.len() != b.produced.len() {
             kit::ev::machinery("C38: the same sequence gives two different canonical observations");
         }
     }
